@@ -6,6 +6,9 @@ natural reasons, (e) failpoints: the n-th table update of a commit raises  ->  s
 nothing may appear on the wire.  Isolation: a generic deep mutator walks every nested attribute path of every handed-out object
 (transaction getters, entity getters, transaction results, observables) and after each single mutation the MDIB snapshot and all
 previously recorded results must be unchanged.
+Round 4: exhaustive crash points also for context / descriptor transaction bodies, the error flag, calls that the API rejects half way,
+every *_by_handle observable counts as a report; further hand-out paths live in vf/c03_handouts.py (entities refreshed with update(), the
+periodic-report store and the periodic report on the wire as published data, context / descriptor results, by_node_type / items()).
 """
 from __future__ import annotations
 
@@ -679,8 +682,10 @@ def w_isolation(ctx: core.Ctx, arg):
                                                                   if k in ('metric', 'alert', 'component', 'context', 'operational', 'rt', 'location')}), memo)
     recorded = []  # (label, object, canonical form at recording time) of previously published results
 
+    last = {}   # the snapshot taken after the latest mutation (= the MDIB before the next one, if nothing was committed in between)
+
     def check(label, cls_name, path, before):
-        after = snap(mdib, with_index_check=False)
+        after = last['snap'] = snap(mdib, with_index_check=False)
         diffs = snap_equal(before, after)
         ctx.count('isolation.mutations')
         if diffs:
@@ -700,8 +705,8 @@ def w_isolation(ctx: core.Ctx, arg):
     def mutate_all(label, obj):
         cls_name = type(obj).__name__
         paths = list(deep_mutations(obj))
+        before = snap(mdib, with_index_check=False)
         for path, thunk in paths:
-            before = snap(mdib, with_index_check=False)
             try:
                 thunk()
             except Exception:  # noqa: BLE001
@@ -709,6 +714,7 @@ def w_isolation(ctx: core.Ctx, arg):
             ctx.case((label, cls_name, path))
             if not check(label, cls_name, path, before):
                 break
+            before = last['snap']   # judged equal to 'before', and only this loop touched anything since
         return len(paths)
 
     all_handles = sorted(d.Handle for d in mdib.descriptions.objects)
@@ -810,29 +816,62 @@ def w_isolation(ctx: core.Ctx, arg):
 
 
 def run(ctx: core.Ctx):
-    ctx.rule = ('crash points: every body position of state transactions over 4 handles (both interfaces), random histories with aborts at '
-                'start/middle/end, rejected API calls, raising pre-commit handler, natural commit failures, failpoint at the n-th table update; '
-                'isolation: every nested attribute path (by reflection) of every handed-out object mutated once.  distinct = (hand-out kind, class, '
-                'attribute path) resp. (crash kind, op, position)')
+    ctx.rule = ('crash points: every body position of state transactions over 4 handles (both interfaces) and of a 7-step context / descriptor transaction '
+                'body, random histories with aborts at start/middle/end, rejected API calls (propagating / handled in the body, also calls rejected half '
+                'way), raising pre-commit handler, error flag, natural commit failures, failpoint at the n-th table update; isolation: every nested '
+                'attribute path (by reflection) of every handed-out object mutated once (transaction getters of all kinds in the body and after the '
+                'commit, all four entity getters, entities refreshed with update() after foreign commits, entities after write_entity, transaction '
+                'results incl. descriptors, observables); published data = earlier results + the periodic-report store + the periodic report on the '
+                'wire.  distinct = (hand-out kind, class, attribute path) resp. (crash kind, op, position)')
     q = ctx.quick
     jobs = []
-    for k in range(4):
-        jobs.append(['w_crashpoints', {'i': k}])
-        jobs.append(['w_rejected_caught', {'i': k}])
-        jobs.append(['w_commit_failures', {'i': k, 'n': 6 if q else 60}])
-    for k in range(4 if q else 16):
-        jobs.append(['w_aborts', {'i': k, 'n': 120 if q else 1500}])
+    # the long jobs first (more jobs than cores: what starts last ends last)
     for k in range(4 if q else 16):
         jobs.append(['w_isolation', {'i': k, 'n': 12 if q else 400}])
+    for k in range(4 if q else 16):
+        jobs.append(['w_aborts', {'i': k, 'n': 120 if q else 1500}])
+    for k in range(4 if q else 8):
+        jobs.append(['w_entity_refresh', {'i': k, 'extra': 2 if q else 12}])
+        jobs.append(['w_isolation_more', {'i': k}])
+        jobs.append(['w_periodic', {'i': k, 'rounds': 2 if q else 12}])
+    for k in range(4):
+        jobs.append(['w_commit_failures', {'i': k, 'n': 6 if q else 60}])
+        jobs.append(['w_crashpoints', {'i': k}])
+        jobs.append(['w_rejected_caught', {'i': k}])
     core.fanout(ctx, MODULE, 'dispatch', jobs, timeout=3000)
     ctx.floor('isolation.mutations', 500)
     ctx.floor('rejected_caught.judged', 60)
     ctx.floor('crashpoint.metric', 8)
+    ctx.floor('crashpoint.context', 16)
+    ctx.floor('crashpoint.descriptor', 16)
     ctx.floor('abort.body.end', 5)
+    ctx.floor('abort.error_flag', 3)
     ctx.floor('failpoint.fired', 4)
+    # hand-outs of c03_handouts: each deciding monitor must have seen its objects
+    ctx.floor('reach.entity_update.new_state', 100)          # states that MultiStateEntity.update() added to a kept entity
+    ctx.floor('reach.entity_update.refreshed_state', 100)    # states that update() refreshed in place
+    ctx.floor('reach.entity_update.descriptor', 40)
+    ctx.floor('periodic.store_states_watched', 100)          # states retained for the next periodic report while the application edits its copies
+    ctx.floor('periodic.mutations', 500)
+    ctx.floor('periodic.wire_states_compared', 40)           # Periodic*Report state compared with the Episodic*Report state of the same version
+    ctx.floor('reach.context_transaction.mk_context_state.after_commit', 50)
+    ctx.floor('reach.context_transaction.add_state.after_commit', 50)
+    ctx.floor('reach.TransactionResult.ctxt_updates', 50)
+    ctx.floor('reach.TransactionResult.descr_created', 10)
+    ctx.floor('reach.TransactionResult.descr_updated', 20)
+    ctx.floor('reach.entities.by_node_type', 50)
+    ctx.floor('reach.entities.items', 50)
+    ctx.floor('reach.entity.after_write_commit', 50)
     ctx.assumptions += ['failpoints are instance-level wrappers of the table update methods of the MDIB under test (runtime hook from the harness)',
+                        'periodic reports: the interval timer of the periodic loop is replaced by a gate (the workload decides when a period ends); loop '
+                        'thread, store and send functions are the library\'s; the store is read through its private lists',
+                        'the error flag is set through the private member _error of the transaction (the public property is read-only)',
                         'a failure of report delivery after the tables were updated is not a failed commit and is not judged here']
 
 
 def dispatch(ctx: core.Ctx, job):
-    globals()[job[0]](ctx, job[1])
+    fn = globals().get(job[0])
+    if fn is None:
+        from .. import c03_handouts
+        fn = getattr(c03_handouts, job[0])
+    fn(ctx, job[1])
